@@ -201,6 +201,47 @@ pub fn judge(prop: &str, family: &str, m: &LFragMovie, l: &mut Local) {
             }
         }
     }
+    // modes 3 and 4: the reader the segment is opened against is not a pure initialization segment — it already holds
+    // the first fragment (init + first moof/mdat in one stream), or is itself a reader derived for an earlier segment.
+    // The derived reader must describe exactly the segment it was opened on.
+    if m.fragments.len() >= 2 && !m.offsets_only {
+        let head = LFragMovie { fragments: m.fragments[..1].to_vec(), ..m.clone() };
+        let tail = LFragMovie { fragments: m.fragments[1..].to_vec(), ..m.clone() };
+        let (head_media, _) = media_nodes(&head);
+        let (tail_media, tail_exp) = media_nodes(&tail);
+        let (ib, _) = serialize(&init);
+        let (hb, _) = serialize(&head_media);
+        let (tb, anchors) = serialize(&tail_media);
+        let mut ihb = ib.clone();
+        ihb.extend_from_slice(&hb);
+        for mode in ["segment_against_init_plus_first_fragment", "segment_against_reader_of_earlier_segment"] {
+            l.evaluations += 1;
+            let opened = guard(|| {
+                if mode == "segment_against_init_plus_first_fragment" {
+                    Mp4Reader::read_header(Cursor::new(&ihb[..]), ihb.len() as u64).and_then(|p| p.read_fragment_header(Cursor::new(&tb[..]), tb.len() as u64))
+                } else {
+                    Mp4Reader::read_header(Cursor::new(&ib[..]), ib.len() as u64)
+                        .and_then(|p0| p0.read_fragment_header(Cursor::new(&hb[..]), hb.len() as u64))
+                        .and_then(|p1| p1.read_fragment_header(Cursor::new(&tb[..]), tb.len() as u64))
+                }
+            });
+            match opened {
+                Ok(Ok(mut r)) => {
+                    l.validated += 1;
+                    if compare_pub(prop, mode, family, &tail, &mut r, &tail_exp, &anchors, None, l) {
+                        l.outcome(&format!("ok:{}", mode));
+                        l.nontrivial += 1;
+                    } else {
+                        l.outcome("VIOLATION");
+                    }
+                }
+                o => {
+                    l.outcome("open_failed");
+                    l.violations.push(Violation::new(prop, "consistent_file_does_not_open", json!({"engine": "shape_frag", "family": family, "mode": mode, "movie": fmovie_json(m)})).obs(json!(format!("{:?}", o.map(|r| r.map(|_| ()).map_err(|e| e.to_string()))))));
+                }
+            }
+        }
+    }
     if l.samples.is_empty() && total == 3 {
         l.samples.push(json!({"family": family, "movie": fmovie_json(m)}));
     }
@@ -455,7 +496,7 @@ pub fn run(tier: Tier, seed: u64) -> i32 {
     ev.set("transitions", json!(l.transitions));
     ev.set("traces_validated_against_impl", json!(l.validated));
     ev.set("distinct_nontrivial", json!(l.nontrivial));
-    ev.set("rule", json!("one case = one logical fragmented movie in one delivery mode (single stream, or initialization segment + separately opened media segment), reference-encoded and opened by the real reader; every id 0..N+1 and u32::MAX of every track is looked up and compared with the statement's formula evaluated on the logical movie; non-trivial = >= 2 samples and all lookups agreed"));
+    ev.set("rule", json!("one case = one logical fragmented movie in one delivery mode (single stream; initialization segment + separately opened media segment; for movies of >= 2 fragments also the later fragments opened against a reader that already holds the first fragment, and against a reader derived for the first fragment's segment), reference-encoded and opened by the real reader; every id 0..N+1 and u32::MAX of every track is looked up and compared with the statement's formula evaluated on the logical movie; non-trivial = >= 2 samples and all lookups agreed"));
     ev.set("families", Value::Array(fams));
     ev.set("exhaustive", json!(true));
     ev.set("outcome_classes", Value::Object(l.outcomes.iter().map(|(k, v)| (k.clone(), json!(v))).collect()));
